@@ -6,11 +6,12 @@ import "strings"
 
 // C20 — require: loader runs at most once, cached identical value, loop detection, missing-module report.
 //
-//verif:harness prop=C20 tier=quick bounds="2 preloaded modules (m with one of 5 loader behaviours, k returning a symbolic number) + host-registered module h; history of 3 requires: m, then a 1-byte symbolic name, then m again; Lua and Go loaders"
+//verif:harness prop=C20 tier=quick bounds="2 preloaded modules (m with one of 6 loader behaviours (returns a value / nothing / stores package.loaded itself / fails / requires itself / stores and returns different values), optionally required twice before its loader is registered, k returning a symbolic number) + host-registered module h; history of 3 requires: m, then a 1-byte symbolic name, then m again; Lua and Go loaders"
 func H_C20_require() {
 	L := newL(Options{}, LoadLibName, BaseLibName)
 	v, w := VFloat("v"), VFloat("w")
-	beh := VChoice(5)
+	beh := VChoice(6)
+	early := VChoice(2) == 1 // the module is required once before any loader for it exists
 	goLoader := VChoice(2) == 1
 	calls := 0
 	kcalls := 0
@@ -34,8 +35,27 @@ func H_C20_require() {
 			L.Push(LString("m"))
 			L.Call(1, 1)
 			return 1
+		case 5:
+			// assigns package.loaded itself AND returns a different value
+			loaded := L.GetField(L.GetField(L.Get(EnvironIndex), "package"), "loaded")
+			L.SetField(loaded, "m", LNumber(v))
+			L.Push(LNumber(w))
+			return 1
 		}
 		return 0
+	}
+	reqEarly := func() {
+		L.Push(L.GetGlobal("require"))
+		L.Push(LString("m"))
+		err := L.PCall(1, 1, nil)
+		VAssert(err != nil && strings.Contains(err.Error(), "package.preload['m']"), "require: a module without loader is reported as not found, listing what was tried")
+		L.Push(L.GetGlobal("require"))
+		L.Push(LString("m"))
+		err = L.PCall(1, 1, nil)
+		VAssert(err != nil && strings.Contains(err.Error(), "package.preload['m']"), "require: a second attempt at a missing module lists what was tried again (no loop error)")
+	}
+	if early {
+		reqEarly()
 	}
 	if goLoader {
 		L.PreloadModule("m", loader)
@@ -70,6 +90,10 @@ func H_C20_require() {
 		VAssert(e1 != nil, "require: a failing loader fails the require")
 	case 4:
 		VAssert(e1 != nil && strings.Contains(e1.Error(), "loop"), "require: a module requiring itself is reported as a loop")
+	case 5:
+		VAssert(e1 == nil && (sameValue(r1, LNumber(v)) || sameValue(r1, LNumber(w))), "require: returns the loader's value or what it stored")
+		loaded := L.GetField(L.GetField(L.GetGlobal("package"), "loaded"), "m")
+		VAssert(sameValue(loaded, r1), "require: package.loaded holds what require returned")
 	}
 	VAssert(calls == 1, "require: the loader ran once")
 	// step 2: a symbolic module name
@@ -77,7 +101,7 @@ func H_C20_require() {
 	r2, e2 := req(name2)
 	switch {
 	case name2 == "m":
-		if beh <= 2 {
+		if beh <= 2 || beh == 5 {
 			VAssert(e2 == nil && sameValue(r2, r1), "require: a later require returns the identical cached value")
 			VAssert(calls == 1, "require: the loader does not run again while it succeeded")
 		}
@@ -95,7 +119,7 @@ func H_C20_require() {
 	}
 	// step 3
 	r3, e3 := req("m")
-	if beh <= 2 {
+	if beh <= 2 || beh == 5 {
 		VAssert(e3 == nil && sameValue(r3, r1), "require: third require still returns the cached value")
 		VAssert(calls == 1, "require: loader count stays 1")
 	}
